@@ -6,6 +6,7 @@ CONE = [
     'csep.utils.calc.bin1d_vec',
     'csep.core.regions.CartesianGrid2D.get_index_of',
     'csep.core.regions.CartesianGrid2D.get_masked',
+    'csep.core.catalogs.AbstractBaseCatalog.filter_spatial',
     'csep.core.catalogs.AbstractBaseCatalog.spatial_counts',
 ]
 ORACLE_MODULES = ['rt.oracles_grid']
